@@ -231,7 +231,7 @@ func init() {
 						top := new(big.Int).Lsh(big.NewInt(1), k)
 						for _, sub := range []int64{0, 1, 5e8, 1e9, r / 2, r} {
 							x := new(big.Int).Sub(top, big.NewInt(sub))
-							qd := new(big.Int).Div(x, big.NewInt(r)) // durations with d*r near 2^k
+							qd := new(big.Int).Div(x, big.NewInt(r))   // durations with d*r near 2^k
 							qn := new(big.Int).Div(x, big.NewInt(1e9)) // counts with n*1e9 near 2^k
 							for dl := int64(-3); dl <= 3; dl++ {
 								if qd.IsInt64() {
